@@ -201,6 +201,9 @@ def _exc_info(exc):
     return {'type': type(exc).__name__, 'msg': str(exc)[:200], 'site': site}
 
 
+_UNIQUE = [0]
+
+
 class World:
     """Objects shared between the steps of one history."""
     def __init__(self, docs, tmpdir, keep_dir=None):
@@ -261,8 +264,9 @@ def run_step(world, step):
             world.cache = {}
         cache = world.cache
     elif step['cache'] == 'disk':
-        world.counter += 1
-        cache = os.path.join(world.tmpdir, 'cache%d' % world.counter)
+        # one folder per render: a folder shared by two DiskCache objects is the finding c19:diskcache-del-removes-shared-folder
+        _UNIQUE[0] += 1
+        cache = os.path.join(world.tmpdir, 'cache%d' % _UNIQUE[0])
     if 'pdf_identifier' in options:
         options['pdf_identifier'] = options['pdf_identifier'].encode()
     if sheets:
@@ -284,13 +288,13 @@ def run_step(world, step):
         if sink == 'fileobj':
             target = io.BytesIO()
         elif sink == 'path':
-            world.counter += 1
-            path = os.path.join(world.tmpdir, 'out%d.pdf' % world.counter)
+            _UNIQUE[0] += 1
+            path = os.path.join(world.tmpdir, 'out%d.pdf' % _UNIQUE[0])
             target = path
         elif sink == 'pathlib':
             import pathlib
-            world.counter += 1
-            path = os.path.join(world.tmpdir, 'out%d.pdf' % world.counter)
+            _UNIQUE[0] += 1
+            path = os.path.join(world.tmpdir, 'out%d.pdf' % _UNIQUE[0])
             target = pathlib.Path(path)
         if step.get('api', 'write') == 'write':
             ret = html.write_pdf(target, zoom=zoom, font_config=fc, **options)
